@@ -48,6 +48,10 @@ type CheckDef struct {
 	// FreshProcess: a violation permanently changes process state, so every
 	// candidate of the minimiser (and the replay) needs its own process.
 	FreshProcess bool
+	// CrossProcess: for the plans it selects, the run is executed a second time by another OS
+	// process (other hash seeds, other package initialisation order of maps) and everything the
+	// check handed to X.Output must be byte-identical.
+	CrossProcess func(p *Plan) bool
 }
 
 // PropDef describes one claimed property.
@@ -323,6 +327,7 @@ func childMain(t *testing.T, c *Ctx) int {
 		fmt.Fprintf(os.Stdout, "%sRUN %d\n", outPrefix, i)
 		p := def.Plan(c, u.Run)
 		r := RunPlan(t, c, p)
+		crossProcess(t, c, def, p, r, 1)
 		// determinism recheck on a sample of runs
 		if r.Infra == "" && !def.NeedsRace && (i+int(c.Seed))%16 == 0 {
 			r2 := RunPlan(t, c, def.Plan(c, u.Run))
@@ -341,6 +346,7 @@ func childMain(t *testing.T, c *Ctx) int {
 			break
 		}
 	}
+	closePeers()
 	fmt.Fprintf(os.Stdout, "%sDONE\n", outPrefix)
 	return 0
 }
@@ -361,8 +367,16 @@ func serverMain(t *testing.T, c *Ctx) int {
 			emit("RES", &Result{Infra: "bad plan: " + err.Error()})
 			continue
 		}
-		emit("RES", RunPlan(t, c, &p))
+		r := RunPlan(t, c, &p)
+		if pd := props[p.Prop]; pd != nil {
+			if def := pd.check(p.Check); def != nil {
+				// several fresh peers: a replay or a shrinking step should not miss the difference
+				crossProcess(t, c, def, &p, r, 4)
+			}
+		}
+		emit("RES", r)
 	}
+	closePeers()
 	return 0
 }
 
@@ -491,6 +505,7 @@ type server struct {
 	inC  interface{ Close() error }
 	out  *bufio.Scanner
 	errb *tailBuf
+	env  []string
 }
 
 type tailBuf struct {
@@ -525,7 +540,7 @@ func newServer(c *Ctx, prop string) *server {
 }
 
 func (s *server) start() error {
-	s.cmd = selfCmd(s.c, "server", s.prop)
+	s.cmd = selfCmd(s.c, "server", s.prop, s.env...)
 	in, err := s.cmd.StdinPipe()
 	if err != nil {
 		return err
@@ -1343,3 +1358,94 @@ func writeEvidence(c *Ctx, pd *PropDef, a *agg, nUnits int, wall float64, nViol 
 }
 
 var _ = sort.Strings
+
+// ---------------------------------------------------------------------------
+// cross-process comparison
+
+var (
+	peerMu   sync.Mutex
+	peerList []*server
+	peerUses int
+)
+
+func closePeers() {
+	peerMu.Lock()
+	defer peerMu.Unlock()
+	for _, p := range peerList {
+		p.close()
+	}
+	peerList = nil
+}
+
+// crossProcess executes the plan again in n other OS processes and compares the
+// outputs the check recorded. What differs between processes and cannot be put
+// behind a seam is the runtime's hash seed and with it the order in which maps
+// built during package initialisation were filled and are walked.
+func crossProcess(t *testing.T, c *Ctx, def *CheckDef, p *Plan, r *Result, n int) {
+	if def.CrossProcess == nil || os.Getenv("VERIF_NO_PEER") != "" || r.Infra != "" || len(r.Violations) > 0 || len(r.Outputs) == 0 || !def.CrossProcess(p) {
+		return
+	}
+	peerMu.Lock()
+	defer peerMu.Unlock()
+	if n == 1 {
+		// one long-lived peer per child process, replaced now and then for variety
+		peerUses++
+		if peerUses%40 == 0 {
+			for _, q := range peerList {
+				q.close()
+			}
+			peerList = nil
+		}
+	}
+	for len(peerList) < n {
+		peerList = append(peerList, &server{c: c, prop: p.Prop, env: []string{"VERIF_NO_PEER=1"}})
+	}
+	for i := 0; i < n; i++ {
+		peer := peerList[i]
+		r2, crashed, tail := peer.exec(p, 120*time.Second)
+		if crashed || r2 == nil {
+			r.Infra = "peer process died executing a plan that ran here: " + trunc(tail, 1500)
+			return
+		}
+		if r2.Infra != "" {
+			r.Infra = "peer process: " + r2.Infra
+			return
+		}
+		if r.Faults == nil {
+			r.Faults = map[string]int64{}
+		}
+		r.Faults["other-process"]++
+		diff := -1
+		for k := range r.Outputs {
+			if k >= len(r2.Outputs) || r.Outputs[k] != r2.Outputs[k] {
+				diff = k
+				break
+			}
+		}
+		if diff < 0 && len(r2.Outputs) == len(r.Outputs) {
+			continue
+		}
+		// fetch the bytes of both sides
+		pd := clonePlan(p)
+		if pd.Knobs == nil {
+			pd.Knobs = map[string]int64{}
+		}
+		pd.Knobs["dump"] = 1
+		mine := RunPlan(t, c, pd)
+		theirs, crashed2, _ := peer.exec(pd, 120*time.Second)
+		label := "?"
+		if diff >= 0 && diff < len(r.Outputs) {
+			label = strings.SplitN(r.Outputs[diff], "=", 2)[0]
+		}
+		sig, detail := "process-dependent:"+label, fmt.Sprintf("output %q of the same history differs between two processes", label)
+		if !crashed2 && theirs != nil && mine.Dump != nil && theirs.Dump != nil {
+			a, b := []byte(mine.Dump[label]), []byte(theirs.Dump[label])
+			if len(a) > 0 && len(b) > 0 {
+				sig = "process-dependent:" + GDiff(a, b)
+				detail = fmt.Sprintf("the same history, executed by two processes, gives different bytes at step %q; %s", label, DiffDetail(a, b))
+			}
+		}
+		r.Violations = append(r.Violations, Violation{Prop: p.Prop, Check: p.Check, Sig: sig, Detail: detail})
+		return
+	}
+}
